@@ -1043,5 +1043,57 @@ Proof.
   repeat split; assumption.
 Qed.
 
+(* ---- what `vh taffytree` really evaluates (Model/TaffyEngineRun.v run_case = Model/TaffyRoot.v real_layout_passes): compute_root_layout -- the
+   root input computed from the root style, ONE memoised query, the root's own layout stored -- and SEVERAL compute_layout calls on the same
+   tree.  For every dispatch / preprocessing / absolute routine / leaf / key equality, any `Num`, any fuel, any trees that are tsim (any cache
+   contents, e.g. after earlier passes) and whose root is not display:none (a hidden root keeps its box fields: C05_hidden_root_refuted):
+   a whole layout pass keeps tsim (or runs out of fuel on both sides), and so does any sequence of passes; from fresh hsim skeletons in
+   particular.  (Proofs/TaffyRootBlind.v; audit, wave 7b: C05_taffy_engine_hidden_invisible is about one memoised query.) *)
+From TV Require Proofs.TaffyRootBlind.
+Theorem C05_taffy_layout_pass_hidden_invisible :
+  forall (T : Type) (N : Num T) (teq : T -> T -> bool) (disp : TStyle T -> nat -> TKind) (pre : BStyle T -> BIn T -> BIn T)
+         (abs_child : @AbsChild T) (leaf : TStyle T -> FIn T -> LayoutOutput T) f
+         (t t' : Engine.tree (TStyle T) (FIn T) (LayoutOutput T) (FLay T)) avail,
+    tsim (TStyle T) (FIn T) (LayoutOutput T) (FLay T) t_is_none t t' ->
+    t_is_none (style_of (TStyle T) (FIn T) (LayoutOutput T) (FLay T) t) = false ->
+    match taffy_compute_root teq disp pre abs_child leaf f t avail, taffy_compute_root teq disp pre abs_child leaf f t' avail with
+    | Some u, Some u' => tsim (TStyle T) (FIn T) (LayoutOutput T) (FLay T) t_is_none u u'
+    | None, None => True
+    | _, _ => False
+    end.
+Proof. intros T N teq disp pre abs_child leaf f t t' avail. exact (TaffyRootBlind.compute_root_tsim teq disp pre abs_child leaf f t t' avail). Qed.
+
+Theorem C05_taffy_layout_passes_hidden_invisible :
+  forall (T : Type) (N : Num T) (teq : T -> T -> bool) (disp : TStyle T -> nat -> TKind) (pre : BStyle T -> BIn T -> BIn T)
+         (abs_child : @AbsChild T) (leaf : TStyle T -> FIn T -> LayoutOutput T) f (k k' : Engine.sk (TStyle T)) avails,
+    hsim (TStyle T) t_is_none k k' -> t_is_none (Engine.sstyle (TStyle T) k) = false ->
+    match taffy_layout_passes teq disp pre abs_child leaf f k avails, taffy_layout_passes teq disp pre abs_child leaf f k' avails with
+    | Some (_, u), Some (_, u') => tsim (TStyle T) (FIn T) (LayoutOutput T) (FLay T) t_is_none u u'
+    | None, None => True
+    | _, _ => False
+    end.
+Proof.
+  intros T N teq disp pre abs_child leaf f k k' avails Hs Hn. unfold taffy_layout_passes.
+  apply (TaffyRootBlind.passes_tsim teq disp pre abs_child leaf f avails).
+  - apply tsim_fresh. exact Hs.
+  - destruct k. exact Hn.
+Qed.
+
+(* computed: two passes (available width 300, then 150) of the REAL instance with representation keys on ex_tree / ex_tree' (above): both
+   succeed; after the second pass the boxes of the visible nodes coincide and the hidden subtree is zero *)
+Example C05_taffy_layout_passes_example :
+  match real_layout_passes xq_seqb 8 ex_tree [ex_avail 300%Z; ex_avail 150%Z], real_layout_passes xq_seqb 8 ex_tree' [ex_avail 300%Z; ex_avail 150%Z] with
+  | Some (_, u), Some (_, u') =>
+      boxes_are (bxz u)  [(0,0,200,30); (0,0,200,20); (0,0,30,20); (30,0,40,10); (0,20,200,10); (0,0,20,10); (0,0,0,0); (50,0,50,10);
+                          (0,30,10,10)]%Z
+      && boxes_are (bxz u') [(0,0,200,30); (0,0,200,20); (0,0,30,20); (30,0,40,10); (0,20,200,10); (0,0,20,10); (0,0,0,0); (0,0,0,0); (0,0,0,0);
+                             (50,0,50,10); (0,30,10,10)]%Z
+  | _, _ => false
+  end = true.
+Proof. vm_compute. reflexivity. Qed.
+
 Print Assumptions C05_grid_algorithm_hidden_blind_example.
 Print Assumptions C05_taffy_engine_example.
+Print Assumptions C05_taffy_layout_pass_hidden_invisible.
+Print Assumptions C05_taffy_layout_passes_hidden_invisible.
+Print Assumptions C05_taffy_layout_passes_example.
